@@ -100,6 +100,7 @@ type HarnessDef struct {
 	Scope   string `json:"scope"`   // stated bound
 	Props   []string `json:"props"`
 	Race    bool     `json:"race,omitempty"` // run under the race detector
+	Always  bool     `json:"always,omitempty"` // function is NOT under contract: its bounded check runs in every tier (never counted as proved)
 }
 
 func loadHarnesses() []HarnessDef {
@@ -447,9 +448,13 @@ func runCheck(p *PropDef, tier string, seed int64) int {
 		}
 		boundedNotes = append(boundedNotes, fmt.Sprintf("%s: verification conditions not generated (%s); bounded stand-in %s passed on %d cases (scope: %s) — NOT a proof", shortName(fn), why, hr.Def.Test, hr.Cases, hr.Def.Scope))
 	}
+	// every tier: bounded checks of the functions on the property's path that are not under contract;
 	// thorough tier: also run every bounded stand-in as a cross-check of the contracts
-	if tier == "thorough" {
+	{
 		for _, h := range cc.harnesses {
+			if tier != "thorough" && !h.Always {
+				continue
+			}
 			serves := false
 			for _, pid := range h.Props {
 				if pid == p.ID {
@@ -469,6 +474,8 @@ func runCheck(p *PropDef, tier string, seed int64) int {
 				cc.reportViolation(o, hr)
 			}
 		}
+	}
+	if tier == "thorough" {
 		for _, lf := range p.Lemmas {
 			if msg, ok := checkLean(lf); !ok {
 				fmt.Fprintf(os.Stderr, "govc: lemma %s does not check: %s\n", lf, msg)
